@@ -336,6 +336,9 @@ func runVecHistory(r *rand.Rand, p vecParams, o vecHistOpts, t *Trace) *Case {
 		if o.nearMirror && len(resident) < 6 && x >= 38 && x < 62 {
 			x = 0 // fill the index first: a near tie needs vectors on both sides
 		}
+		if o.radii && len(resident) < 10 && x >= 38 && x < 62 {
+			x = 0 // every cluster should have members before the searches start
+		}
 		switch {
 		case x < 38: // add
 			id := idOf(nextID)
@@ -376,6 +379,10 @@ func runVecHistory(r *rand.Rand, p vecParams, o vecHistOpts, t *Trace) *Case {
 				t.Stat("vec.add_wrong_dim")
 			}
 			v := histVec(r, dim, style)
+			if o.radii && step%4 == 1 {
+				v[0] = 5.5 + 2*float32(r.Float64()) // an outlying member of the wide cluster, on the tight one's side
+				t.Stat("vec.add_outlier_of_wide_cluster")
+			}
 			if o.mirror {
 				v[0] = []float32{mirrorA, -mirrorA}[r.Intn(2)]
 			}
@@ -449,7 +456,7 @@ func runVecHistory(r *rand.Rand, p vecParams, o vecHistOpts, t *Trace) *Case {
 			} else if y == 9 {
 				nq = 0
 			}
-			nudged := false
+			nudged, between := false, false
 			qs := make([][]float32, nq)
 			for i := range qs {
 				dim := p.dim
@@ -460,6 +467,16 @@ func runVecHistory(r *rand.Rand, p vecParams, o vecHistOpts, t *Trace) *Case {
 				qs[i] = histVec(r, dim, style)
 				if len(resident) > 0 && r.Intn(5) == 0 && dim == p.dim {
 					qs[i] = cloneVec(resident[r.Intn(len(resident))].raw)
+				}
+				if o.radii && dim == p.dim && r.Intn(3) == 0 {
+					// between two clusters: the nearest centroid is the tight cluster's, the nearest vector may well be
+					// an outlying member of the wide one (no cell may be skipped because its centroid looks far)
+					qs[i][0] = float32(2+6*r.Float64()) + 10*float32(r.Intn(2))
+					if r.Intn(2) == 0 {
+						qs[i][0] = 3.5 + 1.4*float32(r.Float64()) // just on the tight cluster's side of the midpoint
+					}
+					between = true
+					t.Stat("vec.query_between_clusters")
 				}
 				if o.mirror && r.Intn(2) == 0 {
 					qs[i][0] = 0 // on the mirror plane: equidistant from the two centroids of a pair
@@ -587,6 +604,13 @@ func runVecHistory(r *rand.Rand, p vecParams, o vecHistOpts, t *Trace) *Case {
 				thr = float32(math.Abs(r.NormFloat64())) * 2
 			case 5:
 				thr = -1
+			}
+			if between && r.Intn(4) != 0 {
+				// a small k is filled by the first cell alone; every cell (or all but one) is to be probed, and
+				// nothing but the distance decides who is in
+				k, thr, nodes, docids = 1+r.Intn(2), 0, nil, nil
+				np = p.nlist - r.Intn(2)
+				t.Stat("vec.between_clusters_small_k")
 			}
 			if nudged && len(resident) > 1 && r.Intn(4) != 0 {
 				// the cut falls inside the candidate list, and nothing but the score decides who is in
